@@ -35,6 +35,38 @@ func checkC16(p *Program, tier string) *Result {
 
 // ruleTableMutex: accesses to the session table's map are under its mutex, except in the drain
 // that the connection loop defers (connection-confined at that point).
+// callersHoldLock: fn is called only statically, from functions that hold the exclusive lock at the call.
+func callersHoldLock(p *Program, fn *ssa.Function) bool {
+	n := 0
+	for _, g := range p.FuncsIn(func(path string) bool { return true }) {
+		for _, c := range allCalls(g) {
+			if c.Common().StaticCallee() != fn {
+				if usesFuncValue(c, fn) {
+					return false
+				}
+				continue
+			}
+			if _, ok := c.(*ssa.Call); !ok {
+				return false
+			}
+			if ex, _ := heldLock(g, c); !ex {
+				return false
+			}
+			n++
+		}
+	}
+	return n > 0
+}
+
+func usesFuncValue(c ssa.CallInstruction, fn *ssa.Function) bool {
+	for _, a := range c.Common().Args {
+		if a == ssa.Value(fn) {
+			return true
+		}
+	}
+	return false
+}
+
 func ruleTableMutex(p *Program, r *Result) {
 	ro := rolesOK(p, r)
 	var tableT *ssa.Function
@@ -82,7 +114,9 @@ func ruleTableMutex(p *Program, r *Result) {
 				n++
 				key := fnKey(fn) + ":table-access"
 				ex, _ := heldLock(fn, in)
-				if ex {
+				if !ex && callersHoldLock(p, fn) {
+					r.ok("R-MUTEX", key, p.Pos(in.Pos()), true, "session table access in a helper whose every caller holds the table's exclusive lock at the call")
+				} else if ex {
 					r.ok("R-MUTEX", key, p.Pos(in.Pos()), true, "session table access under the table's exclusive lock")
 				} else if drains[fn] {
 					r.ok("R-MUTEX", key, p.Pos(in.Pos()), true, "session table access in the drain deferred by the connection loop: runs after the loop has stopped using the table")
